@@ -129,6 +129,10 @@ func C10(tier string) int {
 			st := statusOf(out)
 			outs[st]++
 			classes[fmt.Sprintf("%s|%s|%d|%d|%v|%s|%s", c.entry, c.kind, c.auth, c.block, isAP, c.body.class, st)] = struct{}{}
+			if isAP && out.Err == nil && !out.Handled {
+				// an ActivityPub request is never "not handled": the documented status applies to it
+				bad("activitypub-request-not-handled", "an ActivityPub request ended as not handled with nothing written")
+			}
 			if !isAP || out.Err != nil || !out.Handled {
 				continue
 			}
